@@ -193,6 +193,25 @@ Definition fixed_dst (offset : Z) : Z := 0.
 Definition fixed_fromutc (offset W : Z) : result Z :=
   let W' := W + MEG * offset in if wall_in_range W' then Ok W' else Raise E_OverflowError.
 
+(* ------------------------------------------------------------------------------------------------ strings: isoformat and __str__ *)
+Definition dg (n : Z) : Z := 48 + n.
+Definition r2 (n : Z) : list Z := [dg (n / 10); dg (n mod 10)].
+Definition r4 (n : Z) : list Z := r2 (n / 100) ++ r2 (n mod 100).
+Definition r6 (n : Z) : list Z := r2 (n / 10000) ++ r2 ((n / 100) mod 100) ++ r2 (n mod 100).
+(* utcoffset as +HH:MM[:SS] (whole seconds: tz database offsets) *)
+Definition iso_offset (off : Z) : list Z :=
+  let a := Z.abs off in
+  (if off <? 0 then 45 else 43) :: r2 (a / 3600) ++ [58] ++ r2 ((a / 60) mod 60) ++ (if a mod 60 =? 0 then [] else 58 :: r2 (a mod 60)).
+(* datetime.isoformat(sep): YYYY-MM-DD<sep>HH:MM:SS[.ffffff][+HH:MM[:SS]] as character codes *)
+Definition native_isoformat (sep : Z) (x : dtv) : list Z :=
+  let '(y, m, d, hh, mi, ss, us) := fields_of_wall (v_wall x) in
+  r4 y ++ [45] ++ r2 m ++ [45] ++ r2 d ++ [sep] ++ r2 hh ++ [58] ++ r2 mi ++ [58] ++ r2 ss ++ (if us =? 0 then [] else 46 :: r6 us)
+  ++ match native_utcoffset x with Some o => iso_offset o | None => [] end.
+(* DateTime.__str__: self.isoformat(" ") ; FormattableMixin.for_json: self.isoformat() ; FormattableMixin.__format__(""): str(self) *)
+Definition pd_str (x : dtv) : list Z := native_isoformat 32 x.
+Definition pd_for_json (x : dtv) : list Z := native_isoformat 84 x.
+Definition pd_format_empty (x : dtv) : list Z := pd_str x.
+
 (* ------------------------------------------------------------------------------------------------ part 3: who answers *)
 Local Open Scope string_scope.
 Definition std_lookup (cls name : string) : option (Z * string) :=
